@@ -38,6 +38,10 @@ def handle (op : String) (args : List String) : String :=
     | "/", xs => exRat (divAll xs)
     | "1+", [a] => okRat (add a 1)
     | "1-", [a] => okRat (sub a 1)
+    | "incf", [a] => okRat (add a 1)
+    | "incf", [a, b] => okRat (add a b)
+    | "decf", [a] => okRat (sub a 1)
+    | "decf", [a, b] => okRat (sub a b)
     | "abs", [a] => okRat (absR a)
     | "floor", [a] => exQR (floorDiv a 1)
     | "floor", [a, b] => exQR (floorDiv a b)
@@ -68,6 +72,7 @@ def handle (op : String) (args : List String) : String :=
         | some is => okRat (lxorAll is)
         | none => showErr .typeErr
     | "lognot", [a] => if a.den = 1 then okRat (lnot a.num) else showErr .typeErr
+    | "LessThan", [a, b] => okBool (lt a b)
     | "<", xs => okBool (chain lt xs)
     | "<=", xs => okBool (chain le xs)
     | ">", xs => okBool (chain gt xs)
